@@ -455,6 +455,10 @@ def out_of_fragment(text):
     t = re.sub(r'//[^\n]*', ' ', t)
     if re.search(r'(?<![A-Za-z0-9_$./])0[0-9]', t) or re.search(r'(?<![A-Za-z_$./0-9])[0-9.]+_', t):
         return True
+    # a literal with a leading zero right after a division sign (`1/00`: the run does not start like an identifier, so `/` is the operator)
+    for run in re.findall(r'[A-Za-z0-9_$./]+', t):
+        if not re.match(r'[A-Za-z_$]', run) and any(re.match(r'0[0-9]', piece) for piece in run.split('/')):
+            return True
     for m in re.finditer(r'(?<![A-Za-z0-9_$./])0[xXbB][0-9a-fA-F]*', t):
         pre = t[:m.start()].split()
         if not (len(pre) >= 4 and pre[-1] == '=' and pre[-4] == 'const'):
